@@ -231,6 +231,91 @@ theorem text_stepLoop_keeps (fuel : Nat) : Keeps ITX (stepLoop (α := α) fuel) 
   | zero => unfold stepLoop; keeps
   | succ fuel ih => unfold stepLoop; keeps
 
+/-- in this file `bpText` is a leaf that remembers which text it returns -/
+local macro_rules | `(tactic| keeps_leaf) => `(tactic| with_reducible exact bpText_keeps_val ..)
+
+theorem text_textBlockLoop_keeps (fuel : Nat) : Keeps ITX (textBlockLoop (α := α) fuel) (fun _ => True) := by
+  induction fuel with
+  | zero => unfold textBlockLoop; keeps
+  | succ fuel ih =>
+    unfold textBlockLoop
+    keeps
+    all_goals (
+      rename_i t ht hcond
+      exact ⟨fun s hs => ⟨((text_pushText_keeps _ _ t ht
+        (frags_ne_of_not_isTextEmpty _ _ (by simpa using hcond))).run s hs).1, ih⟩⟩)
+
+local macro_rules | `(tactic| keeps_leaf) => `(tactic| with_reducible exact text_stepLoop_keeps _)
+local macro_rules | `(tactic| keeps_leaf) => `(tactic| with_reducible exact text_textBlockLoop_keeps _)
+
+theorem text_parseBlock_keeps (oldStyle : Bool) : Keeps ITX (parseBlock (α := α) oldStyle) (fun _ => True) := by
+  have hstart : ∀ k, Keeps ITX (pushEv (α := α) (.start k)) (fun _ => True) :=
+    fun k => Keeps.pushEv (fun _ h => h.push trivial)
+  have hstop : ∀ k, Keeps ITX (pushEv (α := α) (.stop k)) (fun _ => True) :=
+    fun k => Keeps.pushEv (fun _ h => h.push trivial)
+  have hstep : Keeps ITX (parseStep (α := α)) (fun _ => True) := by
+    have h1 := hstart .step
+    have h2 := hstop .step
+    unfold parseStep; keeps
+  have htext : Keeps ITX (parseTextBlock (α := α)) (fun _ => True) := by
+    have h1 := hstart .text
+    have h2 := hstop .text
+    unfold parseTextBlock; keeps
+  have hmulti : Keeps ITX (parseMultilineBlock (α := α)) (fun _ => True) := by
+    unfold parseMultilineBlock; keeps
+  unfold parseBlock
+  apply Keeps.bind (R := fun r => ∀ ev, r = some ev → TextNE ev)
+  · have h1 := (closing_sectionP_keeps (α := α) (I := ITX)).mono
+      (R' := fun r => ∀ ev, r = some ev → TextNE ev) (fun r hr ev he => by obtain ⟨n, rfl⟩ := hr ev he; trivial)
+    have h2 := (closing_metadataEntry_keeps (α := α) (I := ITX)).mono
+      (R' := fun r => ∀ ev, r = some ev → TextNE ev) (fun r hr ev he => by obtain ⟨k, v, rfl⟩ := hr ev he; trivial)
+    keeps
+    all_goals (refine Keeps.pure ?_; intro ev he; first | (cases he; done) | (cases he; trivial))
+  · intro r hr
+    split
+    · rename_i ev
+      exact Keeps.pushEv (fun _ h => h.push (hr ev rfl))
+    · exact hmulti
+
+theorem text_runBlock (cs : CharSpec) (ext : Ext) (oldStyle : Bool) (b : List Tok)
+    (evs : Array (Ev α)) (panic : Option String) (h : ITX evs) :
+    ITX (runBlock cs ext oldStyle b evs panic).1 := by
+  have key : Keeps ITX (do
+      if b.isEmpty then panicWith "BlockParser::new: empty tokens"
+      parseBlock (α := α) oldStyle
+      let s ← get
+      if s.cur ≠ s.toks.length then panicWith "Block tokens not parsed") (fun _ => True) := by
+    have := text_parseBlock_keeps (α := α) oldStyle
+    keeps
+  exact (key.run ⟨b, 0, ext, cs, evs, panic⟩ h).1
+
+theorem text_foldl_runBlock (cs : CharSpec) (ext : Ext) (oldStyle : Bool) (blocks : List (List Tok))
+    (acc : Array (Ev α) × Option String) (h : ITX acc.1) :
+    ITX (blocks.foldl (fun acc b => runBlock (α := α) cs ext oldStyle b acc.1 acc.2) acc).1 := by
+  induction blocks generalizing acc with
+  | nil => exact h
+  | cons b bs ih =>
+    rw [List.foldl_cons]
+    exact ih _ (text_runBlock cs ext oldStyle b acc.1 acc.2 h)
+
+/-- **every `Text` event of the pull parser carries a non-empty text** -/
+theorem pullEvents_textNE (cs : CharSpec) (ext : Ext) (input : List Char) :
+    ∀ ev ∈ (pullEvents (α := α) cs ext input).1.toList, TextNE ev := by
+  unfold pullEvents
+  split
+  rename_i toks evs0 oldStyle heq
+  apply text_foldl_runBlock
+  split at heq
+  · simp only [Prod.mk.injEq] at heq
+    rw [← heq.2.1]
+    intro ev hev
+    simp only [List.mem_singleton] at hev
+    subst hev; trivial
+  · simp only [Prod.mk.injEq] at heq
+    rw [← heq.2.1]
+    intro ev hev
+    simp at hev
+
 end textne
 
 end Cook
